@@ -5,7 +5,7 @@ from .c20 import follow_to_params
 from ..analysis import (backslice, aggregates, agg_field, switch_targets_bool, count_nots, closure_creation, forward_locals,
                         direct_field, direct_def, comparisons, branch_of, dominated_region, FLIP, NEG, upvar_operand,
                         switch_on_result_of, field_writes)
-from ..facts import const_int, op_local, op_place, op_const, const_val, rvalue_operands, rvalue_places, place_fields
+from ..facts import const_bool, const_int, op_local, op_place, op_const, const_val, rvalue_operands, rvalue_places, place_fields
 
 DOC = {
     'explanation': 'Byte identity itself is not decidable statically (contents, hash quality). Decided is the staged-hashing plumbing that makes the final group key cover every byte: '
@@ -21,6 +21,7 @@ DOC = {
         'C01.R4': 'hashing task: inode groups keyed by file_info.id; FileId equality is the derived one over exactly {device, inode}',
         'C01.R5': 'hash_transformed: the length bound handed to stream_hash has no data dependence on chunk.len (the raw file length)',
         'C01.R6': 'fields of FileInfo written through the &mut handed to hash_fn and read by the group key are assigned on every HashedFileInfo the task sends',
+        'C01.R8': 'the suffix stage, which combines hashes with XOR, never hashes the chunk the prefix stage already hashed: its pre-filter excludes files not longer than the prefix length (a comparison of file_len with a value that group_files derives from the same prefix_len it hands to the prefix and contents stages); otherwise whole-file ^ whole-file = 0 merges all files of one length',
         'C01.R7': 'file_hash opens at chunk.pos and bounds by chunk.len; stream_hash feeds every buffer to the hasher; the read loop exits only at the bound, on read()==0, or with Err',
     },
     'not_decided': 'that equal hashes mean equal bytes; short reads of files that change under the scan; device classification at run time',
@@ -37,6 +38,7 @@ def run(ctx):
     r5(ctx)
     r6(ctx, 'C01.R6')
     r7(ctx)
+    r8(ctx)
     from .common import run_mandatory
     run_mandatory(ctx, 'C01')
 
@@ -505,3 +507,58 @@ def r7(ctx):
     if cons:
         sl = backslice(b, [cons[0].args[1]])
         ctx.check(rd.dest[0] in sl.locals or rd in sl.calls, rule, b.path + '|consumer-slice', cons[0].where(), 'the consumer receives buf[..actual_read]', 'the consumer does not receive exactly the bytes just read')
+
+
+def r8(ctx, rule='C01.R8'):
+    lib = ctx.lib
+    gf = ctx.need_body(rule, 'group::group_files')
+    sb = ctx.need_body(rule, 'group::group_by_suffix')
+    if gf is None or sb is None:
+        return
+    from ..analysis import base_named_local, upvar_operand
+    pc = gf.calls(r'group::group_by_prefix$')
+    sc = gf.calls(r'group::group_by_suffix$')
+    if not pc or not sc:
+        ctx.missing(rule, 'group_by_prefix / group_by_suffix calls in group_files', gf.where())
+        return
+    src = base_named_local(gf, pc[0].args[1]) if len(pc[0].args) > 1 else None
+    pidx = None
+    for i, a in enumerate(sc[0].args):
+        if src is not None and base_named_local(gf, a) == src and i != 0:
+            pidx = i + 1      # parameter local of group_by_suffix
+    pf = pre_filter_of(lib, 'group_by_suffix')
+    ok = False
+    why = 'group_files does not hand the prefix length to group_by_suffix at all'
+    if pidx is not None and pf is not None:
+        why = 'the pre-filter of group_by_suffix never compares file_len with the prefix length'
+        for cmp in comparisons(pf):
+            sa, sb_ = backslice(pf, [cmp.a]), backslice(pf, [cmp.b])
+            for flen, other, op in ((sa, sb_, cmp.op), (sb_, sa, FLIP[cmp.op])):
+                if 'file_len' not in flen.field_names():
+                    continue
+                from_param = False
+                for i, n in other.upvars:
+                    pb, o = upvar_operand(lib, pf, i)
+                    if pb is not None and o is not None and pidx in backslice(pb, [o]).params:
+                        from_param = True
+                if from_param:
+                    ok = op == '>'
+                    br = branch_of(pf, cmp)
+                    if ok and br:
+                        # the comparison is a conjunct: from its false side the closure can only return false
+                        sw, tt, ft = br
+                        fside = ft if op == cmp.op else ft
+                        for x in pf.reachable(fside):
+                            if pf.dominates(tt, x):
+                                continue
+                            for st in pf.blocks[x]['stmts']:
+                                if st['p'][0] == 0 and not st['p'][1] and not (st['rv']['k'] == 'use' and const_bool(st['rv']['op']) is False) and not pf.dominates(fside, x) is False:
+                                    if pf.dominates(fside, x):
+                                        ok = False
+                                        why = 'the comparison of file_len with the prefix length is not a necessary condition of the pre-filter (the closure can return true from its false side)'
+                    why = 'the pre-filter compares file_len %s prefix length; files with file_len == prefix length were hashed completely by the prefix stage too' % op
+    elif pf is None:
+        why = 'pre-filter closure of group_by_suffix not found'
+    ctx.check(ok, rule, 'group::group_by_suffix|skips-fully-hashed', sb.where(), 'suffix stage pre-filter: file_len > prefix_len (the value group_files hands to all three stages)',
+              why + ': for a file that the prefix stage hashed completely and whose suffix chunk is again the whole file (--max-suffix-size >= length), old_hash ^ new_hash = 0, '
+              'so every file of that length lands in one group and the contents stage (file_len >= prefix_len only) never separates them')
